@@ -109,6 +109,10 @@ var c10LatencyTable = map[string]accSpec{
 
 // c10Accumulators classifies every effect of an Add method.
 func c10Accumulators(c *Ctx, fn *ssa.Function, table map[string]accSpec) {
+	withInline(func() { c10AccumulatorsIn(c, fn, table) })
+}
+
+func c10AccumulatorsIn(c *Ctx, fn *ssa.Function, table map[string]accSpec) {
 	const rule = "every effect of Add is a commutative accumulator (sum; min/max by strict comparison with the incoming value in the documented direction, first-sample test not on the accumulator's own value; set insert under a membership test; delegate) fed from the documented field under the documented condition"
 	seen := map[string]bool{}
 	recv := fn.Params[0].Name()
@@ -119,7 +123,15 @@ func c10Accumulators(c *Ctx, fn *ssa.Function, table map[string]accSpec) {
 	fail := func(field, why string, at ssa.Instruction) {
 		c.Fail("accumulator:"+shortFn(fn)+":"+field, rule, why, c.at(at))
 	}
-	eachInstr(fn, func(i ssa.Instruction) {
+	reg := inlinedRegion(c.P, fn)
+	inReg := map[*ssa.Function]bool{}
+	for _, g := range reg {
+		inReg[g] = true
+		if g != fn {
+			c.Saw("function " + shortFn(g))
+		}
+	}
+	visit := func(i ssa.Instruction) {
 		switch x := i.(type) {
 		case *ssa.Store:
 			fa, ok := x.Addr.(*ssa.FieldAddr)
@@ -164,11 +176,19 @@ func c10Accumulators(c *Ctx, fn *ssa.Function, table map[string]accSpec) {
 				}
 				c.Pass(key, rule, "sum of "+spec.src+condSuffix(spec.cond), c.at(x))
 			case "max", "min":
+				if why, handled, ok := builtinMinMax(x.Parent(), x, fa, spec.kind, spec.src, norm); handled {
+					if !ok {
+						fail(field, why, x)
+						return
+					}
+					c.Pass(key, rule, spec.kind+" of "+spec.src+" ("+why+")", c.at(x))
+					return
+				}
 				if got := norm(describeVal(x.Val)); got != spec.src {
 					fail(field, fmt.Sprintf("stores %s, want %s", got, spec.src), x)
 					return
 				}
-				why, ok := minMaxGuard(fn, x, fa, spec.kind)
+				why, ok := minMaxGuard(x.Parent(), x, fa, spec.kind)
 				if !ok {
 					c.Fail(sentinelKey(fn, field, why), rule, why, c.at(x))
 					return
@@ -263,8 +283,11 @@ func c10Accumulators(c *Ctx, fn *ssa.Function, table map[string]accSpec) {
 		case ssa.CallInstruction:
 			cc := x.Common()
 			n := callName(cc)
+			if f := cc.StaticCallee(); f != nil && f != fn && inReg[f] {
+				return // a single-site helper of Add: its instructions are visited as part of Add
+			}
 			switch {
-			case n == "builtin:append" || n == "builtin:len" || strings.HasPrefix(n, "strconv.") || n == "(time.Time).IsZero" || n == "(time.Time).After" || n == "(time.Time).Before" || n == "(*lib.Result).End":
+			case n == "builtin:append" || n == "builtin:len" || n == "builtin:min" || n == "builtin:max" || strings.HasPrefix(n, "strconv.") || n == "(time.Time).IsZero" || n == "(time.Time).After" || n == "(time.Time).Before" || n == "(*lib.Result).End":
 				return
 			case n == "(*lib.Metrics).init" || n == "(*lib.LatencyMetrics).init":
 				seen["call:init"] = true
@@ -293,7 +316,10 @@ func c10Accumulators(c *Ctx, fn *ssa.Function, table map[string]accSpec) {
 				fail("call:"+n, "Add calls "+n+", which is not a recognised accumulator delegate", x)
 			}
 		}
-	})
+	}
+	for _, g := range reg {
+		eachInstr(g, visit)
+	}
 	var missing []string
 	for k := range table {
 		if !seen[k] {
@@ -388,6 +414,116 @@ func membershipGuard(b *ssa.BasicBlock, src string) (string, bool) {
 }
 
 // minMaxGuard checks the guard of `field = v`.
+// builtinMinMax handles accumulators written with the min/max builtins:
+//
+//	x.Max = max(x.Max, v)                                  (unconditional)
+//	if first { x.Min = v } else { x.Min = min(x.Min, v) }  (first-sample arm + builtin arm)
+//
+// handled is false when the store is neither arm of that shape (the comparison-guard rule applies).
+func builtinMinMax(fn *ssa.Function, st *ssa.Store, fa *ssa.FieldAddr, kind, src string, norm func(string) string) (why string, handled, ok bool) {
+	sameField := func(v ssa.Value) bool {
+		ld, isL := isLoad(v)
+		return isL && path(ld.X) == path(fa)
+	}
+	isBuiltinArm := func(s *ssa.Store) (string, bool, bool) {
+		call, isCall := s.Val.(*ssa.Call)
+		if !isCall {
+			return "", false, false
+		}
+		n := callName(&call.Call)
+		if n != "builtin:min" && n != "builtin:max" {
+			return "", false, false
+		}
+		if n != "builtin:"+kind {
+			return "the accumulator documented as " + kind + " is updated with " + strings.TrimPrefix(n, "builtin:"), true, false
+		}
+		if len(call.Call.Args) != 2 {
+			return "builtin " + kind + " with other than two operands", true, false
+		}
+		a, b := call.Call.Args[0], call.Call.Args[1]
+		if !(sameField(a) && norm(describeVal(b)) == src || sameField(b) && norm(describeVal(a)) == src) {
+			return "builtin " + kind + " is not taken over the accumulator itself and " + src, true, false
+		}
+		return "builtin " + kind, true, true
+	}
+	// all stores to this field in Add
+	var stores []*ssa.Store
+	eachInstr(fn, func(i ssa.Instruction) {
+		if s, isS := i.(*ssa.Store); isS {
+			if f2, isFA := s.Addr.(*ssa.FieldAddr); isFA && path(f2) == path(fa) {
+				stores = append(stores, s)
+			}
+		}
+	})
+	var builtinStore *ssa.Store
+	for _, s := range stores {
+		if _, h, _ := isBuiltinArm(s); h {
+			builtinStore = s
+		}
+	}
+	if builtinStore == nil {
+		return "", false, false
+	}
+	if w, h, k := isBuiltinArm(st); h {
+		if !k {
+			return w, true, false
+		}
+		// every path through Add updates the accumulator
+		set := explore(fn.Blocks[0].Instrs[0], true, func(i ssa.Instruction) bool {
+			s, isS := i.(*ssa.Store)
+			if !isS {
+				return false
+			}
+			for _, o := range stores {
+				if o == s {
+					return true
+				}
+			}
+			return false
+		})
+		if len(returnsIn(set)) > 0 {
+			return "the " + kind + " update is skipped on some path through Add", true, false
+		}
+		if kind == "min" {
+			// a zero-valued accumulator would win every min: a first-sample arm must exist
+			hasFirst := false
+			for _, s := range stores {
+				if s != st && norm(describeVal(s.Val)) == src {
+					hasFirst = true
+				}
+			}
+			if !hasFirst {
+				return "min(accumulator, v) without a first-sample arm: the zero value of the accumulator wins every comparison", true, false
+			}
+		}
+		return w, true, true
+	}
+	// st is the other arm: the plain value under a first-sample flag that does not depend on the accumulator
+	if norm(describeVal(st.Val)) != src {
+		return "", false, false
+	}
+	fs := factsAt(st.Block())
+	if len(fs) == 0 {
+		return "the accumulator is overwritten unconditionally next to a builtin " + kind, true, false
+	}
+	for _, f := range fs {
+		if flowsFrom(f.Cond, sameField) {
+			return "in-domain sentinel: the first-sample test is derived from the accumulator's own value", true, false
+		}
+		// the builtin arm is on the other edge of the same test
+		if f.If != nil {
+			other := f.If.Block().Succs[1]
+			if !f.Val {
+				other = f.If.Block().Succs[0]
+			}
+			if !(builtinStore.Block() == other || other.Dominates(builtinStore.Block())) {
+				return "the first-sample arm and the builtin arm are not the two edges of one test", true, false
+			}
+		}
+	}
+	return "first-sample arm of a builtin " + kind, true, true
+}
+
 func minMaxGuard(fn *ssa.Function, st *ssa.Store, fa *ssa.FieldAddr, kind string) (string, bool) {
 	// the store's block is entered from If(s); collect the disjuncts that lead to it
 	blk := st.Block()
@@ -1099,6 +1235,10 @@ func runC11(c *Ctx) {
 		key := "minmax-from-sample:lib.LatencyMetrics." + f
 		if st == nil {
 			c.Fail(key, r1, f+" is never updated", c.fnAt(lAdd))
+			continue
+		}
+		if w, handled, okB := builtinMinMax(lAdd, st, st.Addr.(*ssa.FieldAddr), strings.ToLower(f), "arg0", func(s string) string { return s }); handled {
+			c.Check(okB, key, r1, f+" tracks the sample ("+w+")", w, c.at(st))
 			continue
 		}
 		why, ok := minMaxGuard(lAdd, st, st.Addr.(*ssa.FieldAddr), strings.ToLower(f))
